@@ -1,6 +1,7 @@
 package sym
 
 import (
+	"bytes"
 	"reflect"
 	"strconv"
 	"strings"
@@ -76,6 +77,31 @@ func TestModels(t *testing.T) {
 		}
 		if g, w := ModelContains(s, "a\n"), strings.Contains(s, "a\n"); g != w {
 			t.Fatalf("Contains(%q)", s)
+		}
+		for _, c := range []byte{'a', ' ', 0x80, 0} {
+			if g, w := ExtIndexByteString(s, c), strings.IndexByte(s, c); g != w {
+				t.Fatalf("IndexByte(%q, %q) = %d, want %d", s, c, g, w)
+			}
+			if g, w := ExtIndexByte([]byte(s), c), bytes.IndexByte([]byte(s), c); g != w {
+				t.Fatalf("bytes.IndexByte(%q, %q) = %d, want %d", s, c, g, w)
+			}
+			if g, w := ExtCountString(s, c), strings.Count(s, string([]byte{c})); c < 0x80 && g != w {
+				t.Fatalf("Count(%q, %q) = %d, want %d", s, c, g, w)
+			}
+			if g, w := ExtCount([]byte(s), c), bytes.Count([]byte(s), []byte{c}); g != w {
+				t.Fatalf("bytes.Count(%q, %q) = %d, want %d", s, c, g, w)
+			}
+		}
+		for _, sub := range []string{"a ", " ", "\xe2\x80", "a"} {
+			if g, w := ExtIndexString(s, sub), strings.Index(s, sub); g != w {
+				t.Fatalf("Index(%q, %q) = %d, want %d", s, sub, g, w)
+			}
+			if g, w := ExtIndex([]byte(s), []byte(sub)), bytes.Index([]byte(s), []byte(sub)); g != w {
+				t.Fatalf("bytes.Index(%q, %q) = %d, want %d", s, sub, g, w)
+			}
+			if g, w := ExtCompare([]byte(s), []byte(sub)), bytes.Compare([]byte(s), []byte(sub)); g != w {
+				t.Fatalf("Compare(%q, %q) = %d, want %d", s, sub, g, w)
+			}
 		}
 	}
 }
